@@ -181,10 +181,11 @@ OPAQUE = "￼"   # marks text whose content the engine does not model
 
 
 class SInt:
-    __slots__ = ("e",)
+    __slots__ = ("e", "pycls")
 
-    def __init__(self, e):
+    def __init__(self, e, pycls=None):
         self.e = e
+        self.pycls = pycls      # IntEnum / IntFlag class of which this value is a (pseudo-)member, or None
 
     def __hash__(self):
         return id(self)
